@@ -391,8 +391,8 @@ def judge_fault(col, prog, cores, rc, out, err, ds, bad_idx, case, kind):
     if cores > 1:
         col.count("fault_runs_multicore")
     if rc == "timeout":
-        col.violation("failing-locus-hangs-program", "%s --cores %d with a failing locus at position %d did not exit within %d s (stdout so far %d record lines)"
-                      % (prog, cores, bad_idx, WATCHDOG, len(cli.record_lines(out))), case)
+        col.violation("failing-locus-hangs-program", "%s --cores %d with a failing locus at position %d did not exit within the watchdog (4-10 min; the single-core run of the same input exits within seconds) (stdout so far %d record lines)"
+                      % (prog, cores, bad_idx, len(cli.record_lines(out))), case)
         return
     recs = cli.record_lines(out)
     keys = [rec_key(l) for l in recs]
@@ -419,14 +419,27 @@ def run_fault(tier, seed, spec, col):
         # schedules: the failing locus' block may finish first, in the middle or LAST (an exception of the last job to
         # finish is the one a careless wait loop loses), so the failing locus is also made slow / the others slow
         variants = [(1, None), (3, None), (3, "slow=%s:2500" % bad_name), (2, "slow=%s:2500" % bad_name), (3, "slowothers=%s:700" % bad_name)]
+        hung = False
+        t_single = None
         for cores, inj in variants:
+            if hung:
+                col.count("fault_runs_skipped_after_a_hang")
+                continue
             case = {"dataset": spec["dataset"], "program": "assemble", "bad_locus": bad, "cores": cores, "seed": seed, "inject": inj}
             col.case(case, nontrivial=True)
             e = {"PYTHONPATH": pyp}
             if inj:
                 e["MCHAP_VERIF_INJECT"] = inj
                 col.add_to_set("fault_schedules", inj.split("=")[0])
-            rc, out, err = cli.run_subprocess(argv_for(ds, "assemble", cores=cores), timeout=WATCHDOG, extra_env=e)
+            # the single-core run of the same failing input is timed first; a multi-core run of it that needs more than 20x
+            # that (never less than 4 minutes, never more than the 10-minute watchdog) is a hang - and one hang per failing
+            # position is enough, the remaining schedules of that position are skipped
+            limit = WATCHDOG if t_single is None else int(min(WATCHDOG, max(240, 20 * t_single + 30)))
+            t0 = time.time()
+            rc, out, err = cli.run_subprocess(argv_for(ds, "assemble", cores=cores), timeout=limit, extra_env=e)
+            if cores == 1 and rc != "timeout":
+                t_single = time.time() - t0
+            hung = rc == "timeout"
             col.count("subprocess_runs")
             col.count("fault_positions_covered" if cores == 1 else "fault_positions_covered_multicore")
             if inj and inj.startswith("slow="):
@@ -440,7 +453,7 @@ def run_fault(tier, seed, spec, col):
                 datasets.write_bed(bed1, [(L["contig"], L["start"], L["stop"], L["name"])])
                 case1 = dict(case, what="single-locus targets, cores 2")
                 col.case(case1, nontrivial=True)
-                rc1, out1, err1 = cli.run_subprocess(argv_for(ds, "assemble", bed=bed1, cores=2), timeout=WATCHDOG, extra_env=e)
+                rc1, out1, err1 = cli.run_subprocess(argv_for(ds, "assemble", bed=bed1, cores=2), timeout=limit, extra_env=e)
                 col.count("subprocess_runs")
                 col.count("fault_runs_single_locus_multicore")
                 col.count("fault_runs")
@@ -458,12 +471,17 @@ def run_faultinj(tier, seed, spec, col):
     rng = gen.rng_for(seed, ID, 3000, 0)
     for prog in ("call-exact", "call", "call-pedigree"):
         bad = int(rng.integers(len(ds.loci)))
+        t_single = None
         for cores in (1, 4):
             e = {"PYTHONPATH": os.pathsep.join([inject] + os.environ.get("PYTHONPATH", "").split(os.pathsep)),
                  "MCHAP_VERIF_INJECT": "fail=%s,delay=%d:200" % (ds.loci[bad]["name"], seed + cores)}
             case = {"dataset": spec["dataset"], "program": prog, "bad_locus": bad, "cores": cores, "seed": seed, "inject": e["MCHAP_VERIF_INJECT"]}
             col.case(case, nontrivial=True)
-            rc, out, err = cli.run_subprocess(argv_for(ds, prog, cores=cores), timeout=WATCHDOG, extra_env=e)
+            limit = WATCHDOG if t_single is None else int(min(WATCHDOG, max(240, 20 * t_single + 30)))
+            t0 = time.time()
+            rc, out, err = cli.run_subprocess(argv_for(ds, prog, cores=cores), timeout=limit, extra_env=e)
+            if cores == 1 and rc != "timeout":
+                t_single = time.time() - t0
             col.count("subprocess_runs")
             judge_fault(col, prog, cores, rc, out, err, ds, bad, case, "injected")
     col.sample({"injected_fault_runs": "fail=<locus> via inject/sitecustomize.py on call-exact, call, call-pedigree with 1 and 4 cores"})
